@@ -89,9 +89,9 @@ func init() {
 	}
 	// the implicit `return None` is omitted only when the very last element of the instruction stream is a RETURN_VALUE: a trailing label is a jump target that needs an instruction after it  []
 	pathSpec["compile|Instructions.EndsWithReturn"] = []string{
-		"[!(last.(*Op)) && len(is) != 0]  -> false",
-		"[is[len(is) - 1].Op != vm.RETURN_VALUE && last.(*Op) && len(is) != 0]  -> false",
-		"[is[len(is) - 1].Op == vm.RETURN_VALUE && last.(*Op) && len(is) != 0]  -> true",
+		"[!(is[len(is) - 1].(*Op)) && len(is) != 0]  -> false",
+		"[is[len(is) - 1].(*Op) && is[len(is) - 1].Op != vm.RETURN_VALUE && len(is) != 0]  -> false",
+		"[is[len(is) - 1].(*Op) && is[len(is) - 1].Op == vm.RETURN_VALUE && len(is) != 0]  -> true",
 		"[len(is) == 0]  -> false",
 	}
 	// incomplete-input decision (lexer half): a parse error without a message of its own is reported as 'unexpected EOF while parsing' exactly when the input ran out (x.eof), otherwise as 'invalid syntax' — the REPL continues a statement on the former  []
